@@ -520,6 +520,8 @@ class C09(Check):
         def X(c, via="eof"): return {"op": "lose", "c": c, "via": via}
         yield {"ops": [C] + up(0, 5) + [C] + up(1, 5) + [X(0), S(5, 1)], "tag": "D3"}                        # stale close after reconnect
         yield {"ops": [C] + up(0, 5) + [C, R(1, M("hello", 1), M("features_reply", 2, d=5)), X(1), S(5, 1)], "tag": "D3-handshake"}
+        yield {"ops": [C] + up(0, 5) + [R(0, M("error", 9, ty=1, code=1), M("packet_in", 10)), S(5, 1), X(0)], "tag": "error-when-up"}
+        yield {"ops": [C, R(0, M("hello", 1), M("features_reply", 2, d=5)), {"op": "sockfail", "c": 0}, R(0, M("echo_request", 4), M("barrier_reply", "good")), S(5, 1), X(0), S(5, 2)], "tag": "send-error-then-barrier"}
         yield {"ops": [C] + up(0, 5) + [{"op": "disc", "c": 0}, C] + up(1, 5) + [X(0), S(5, 1)], "tag": "D3-disc-then-close"}
         yield {"ops": [C] + up(0, 5) + [C] + up(1, 5) + [X(1), S(5, 1), X(0)], "tag": "orphan"}              # newer one dies first
         yield {"ops": [C] + up(0, 5) + [R(0, M("features_reply", 3, d=6)), S(5, 1), S(6, 2), X(0), S(5, 3), S(6, 4)], "tag": "dpid-change"}
@@ -531,10 +533,8 @@ class C09(Check):
         yield {"ops": [C, R(0, M("barrier_reply", 3), M("error", 3, ty=1, code=1), M("hello", 1), M("hello", 2)), R(0, M("features_reply", 2, d=5)),
                        R(0, M("error", "good", ty=1, code=0), M("error", "good", ty=0, code=1), M("error", "good", ty=1, code=1)), X(0, "err")], "tag": "errors"}
         yield {"ops": [C] + up(0, 5) + [{"op": "sockfail", "c": 0}, S(5, 1), S(5, 2), X(0), S(5, 3)], "tag": "sendto-send-error"}
-        yield {"ops": [C] + up(0, 5) + [R(0, M("error", 9, ty=1, code=1), M("packet_in", 10)), S(5, 1), X(0)], "tag": "error-when-up"}
         yield {"ops": [C, {"op": "sockfail", "c": 0}, R(0, M("hello", 1)), R(0, M("features_reply", 2, d=5)), X(0)], "tag": "send-error-hello"}
         yield {"ops": [C, R(0, M("hello", 1)), {"op": "sockfail", "c": 0}, R(0, M("features_reply", 2, d=5), M("barrier_reply", 5)), X(0), S(5, 1)], "tag": "send-error-features"}
-        yield {"ops": [C, R(0, M("hello", 1), M("features_reply", 2, d=5)), {"op": "sockfail", "c": 0}, R(0, M("echo_request", 4), M("barrier_reply", "good")), S(5, 1), X(0), S(5, 2)], "tag": "send-error-then-barrier"}
         yield {"ops": [C] + up(0, 5) + [X(0), {"op": "disc", "c": 0}, R(0, M("packet_in", 1)), X(0), {"op": "disc", "c": 7}, R(3, M("hello", 1)), S(9, 9)], "tag": "after-close"}
         yield {"ops": [C] + up(0, 5) + [{"op": "disc", "c": 0}, R(0, M("features_reply", 3, d=5), M("port_status", 9)), S(5, 1), X(0)], "tag": "msg-after-disc"}
 
